@@ -239,6 +239,12 @@ CLAIMED = {
 }
 # properties part of whose source is translated to Gallina on every run (harness/pytrans.py): (what, theorems about the generated defs)
 TRANSLATED = {
+ 'C07': ('the euclid / neg_riem_dist / cosine / corr / cosine_cov / corr_cov branches of the pool_rdm the noise ceilings call '
+         '(util/inference_util.py) and the euclid / cosine / corr branches of the fitters\' pool_rdm (util/pooling.py), on stacks without '
+         'missing entries',
+         'the generated branches are the model\'s pooled RDMs (mean; mean of the RMS-normalised RDMs; mean of the centred, '
+         'std-normalised RDMs shifted to a minimum of 0.01), about which the optimality theorems speak; the generated cosine pool is '
+         'invariant to rescaling individual data RDMs'),
  'C03': ('the all-norms-positive path of _cosine (branch condition included) and the bodies of compare_cosine / compare_correlation '
          '(rdm/compare.py)',
          'the generated branch condition is "every norm is positive"; on that path entry (i,k) of the generated compare_cosine / '
